@@ -103,6 +103,10 @@ def cases(M):
             else:
                 yield {"k": "dt", "z": zn, "u": (t - 1) * US, "ti": i, "pk": "pre-gap"}
                 yield {"k": "dt", "z": zn, "u": t * US, "ti": i, "pk": "post-gap"}
+                if i % 2 == 0 or thorough:
+                    # a value the class constructor accepts as it is: a wall time inside the gap (either fold) - a
+                    # reconstruction has to hand back these very fields, not a normalised neighbour
+                    yield {"k": "rawgap", "z": zn, "w": (t + ob) * US + r.randrange(g * US), "f": i // 2 % 2, "ti": i}
             if oa < ob and (thorough or i % 3 == 0):
                 x = r.randrange(0, g)
                 yield {"k": "iv", "z": zn, "ua": (t - g + x) * US, "ub": (t + r.randrange(0, g)) * US, "abs": i % 2, "ti": i}
@@ -181,6 +185,13 @@ def run(M, c):
         M.cls("dt", c["z"], c["ti"], c["pk"])
         amb = ":ambiguous" if c["pk"] in ("pass1", "pass2") else ""
         _judge(M, "datetime", v, sig_extra=amb + (":fold1" if v.fold else ""))
+        return
+    if k == "rawgap":
+        v = P.DateTime(*us_to_fields(c["w"]), tzinfo=P.timezone(c["z"]), fold=c["f"])
+        M.cls("rawgap", c["z"], c["ti"], c["f"])
+        _judge(M, "datetime", v, sig_extra=":skipped-wall-time" + (":fold1" if c["f"] else ""))
+        f2 = P.DateTime(*us_to_fields(c["w"]), tzinfo=P.tz.timezone.FixedTimezone(3600 * (c["ti"] % 5 - 2)), fold=1)
+        _judge(M, "datetime", f2, sig_extra=":fixed:fold1")
         return
     if k == "iv":
         a, b = gen.mk(c["z"], c["ua"]), gen.mk(c["z"], c["ub"])
